@@ -105,6 +105,7 @@ def check(ctx):
     ctx.rule("R3", "the number allocator purges dead jobs first and scans upward from 1; add_job registers that number in both structures", floor=4)
     ctx.rule("R6", "the purge keeps a task only on the evidence of a poll() that says the process is still running", floor=1)
     ctx.rule("R5", "inside one function every access to the job structures happens under one view of the tables", floor=12)
+    ctx.rule("R7", "resume_job reports success only after it made the selected job the current one (front of the order): bg acts on the current job afterwards", floor=2)
     ctx.rule("R4", "jobs/bg/disown run against the main thread's table; use_main_jobs restores the thread-local view on every exit; fg is unthreadable", floor=5)
 
     mod = ctx.repo.module(JB)
@@ -439,6 +440,38 @@ def check(ctx):
     if n_keep < 1:
         raise AnalysisError(f"{JB}:_clear_dead_jobs: no keep-path enumerated")
 
+    _resume_contract(ctx, mod)
+
+
+def _resume_contract(ctx, mod):
+    """`bg N`: bg() calls resume_job() and, when that reports success (None), continues "the current job" - the front of
+    the order.  So every success path of resume_job must have moved the job it selected to the front."""
+    from ..engine import dtable
+
+    fn = mod.func("resume_job")
+    st = f"{JB}:resume_job"
+    ps = dtable.paths(fn, stores=True, loops="skip")
+    ok_paths = [p_ for p_ in ps if dtable.feasible(p_) and (p_.outcome == "fall" or (p_.outcome == "return" and (p_.value is None or const_value(p_.value, 0) is None)))]
+    if not ok_paths:
+        raise AnalysisError(f"{st}: no success path (return None) enumerated")
+    bad = None
+    n_ok = 0
+    for p_ in ok_paths:
+        calls = [e.value if isinstance(e, ast.Expr) else e for e in p_.effects]
+        calls = [c for c in calls if isinstance(c, ast.Call) and isinstance(c.func, ast.Attribute)]
+        front = [unparse(c.args[0]) for c in calls if c.func.attr == "appendleft" and c.args]
+        resumed = [unparse(g.args[0]) for c in calls if c.func.attr == "resume" for g in ast.walk(c.func.value) if isinstance(g, ast.Call) and (call_name(g) or "").endswith("get_task") and g.args]
+        if front and (not resumed or set(resumed) <= set(front)):
+            n_ok += 1
+        elif bad is None:
+            bad = p_
+    ctx.ob("R7", st, f"every path that reports success has put the selected job at the front of the order ({len(ok_paths)} success paths enumerated)", bad is None, key="resume_job|success-without-promotion", where=loc(bad.node) if bad is not None and bad.node is not None else loc(fn), detail=("path: " + "; ".join(bad.cond_texts())[:300]) if bad is not None else None)
+    # the caller's side of the contract: after success bg() takes the front of the order
+    bgf = mod.func("bg")
+    bps = [p_ for p_ in dtable.paths(bgf, stores=True, loops="skip") if any("is None" in t and not t.startswith("not ") and "resume_job" in t for t in p_.cond_texts())]
+    ok = bool(bps) and all(any("[0]" in unparse(e) and ("_continue" in unparse(e) or "bg" in unparse(e)) for e in p_.effects) for p_ in bps)
+    ctx.ob("R7", f"{JB}:bg", "after a successful resume bg() marks and continues the job at the front of the order", ok, key="bg|acts-on-other-than-front", where=loc(bgf))
+
 
 META = {
     "technique": "static analysis: who-may-write + effect summaries of every mutator of the two job structures, CFG pairing (must-pass-through/dominance) and reachability of error returns after mutation",
@@ -452,4 +485,5 @@ META = {
     "happens under one view (a number allocated against one table is never registered in another). Interleavings with process exits are not decided.",
     "note": "Decides the listed structural clauses, not the behaviour. Error returns are recognised by the alias "
     "convention `return <out>, <non-empty err>`.",
+    "more": 'Also decided: resume_job reports success only after moving the selected job to the front of the order, which is the job bg then continues.',
 }
